@@ -1,6 +1,7 @@
 package server
 
 import (
+	"errors"
 	"sync"
 
 	"github.com/cbeuw/Cloak/internal/common"
@@ -20,7 +21,10 @@ type ActiveUser struct {
 
 	sessionsM sync.RWMutex
 	sessions  map[uint32]*mux.Session
+	retired   bool // set under sessionsM by TerminateActiveUser: no session may be added afterwards
 }
+
+var errUserRetired = errors.New("the active user has been terminated")
 
 // CloseSession closes a session and removes its reference from the user
 func (u *ActiveUser) CloseSession(sessionID uint32, reason string) {
@@ -45,6 +49,9 @@ func (u *ActiveUser) CloseSession(sessionID uint32, reason string) {
 func (u *ActiveUser) GetSession(sessionID uint32, config mux.SessionConfig) (sesh *mux.Session, existing bool, err error) {
 	u.sessionsM.Lock()
 	defer u.sessionsM.Unlock()
+	if u.retired {
+		return nil, false, errUserRetired
+	}
 	if sesh = u.sessions[sessionID]; sesh != nil {
 		return sesh, true, nil
 	} else {
